@@ -7,5 +7,5 @@ for P in "$@"; do
     [ -e "$f" ] && git add "$f"
   done
 done
-git add -u fixes KNOWN_FINDINGS.txt MANIFEST.json harness 2>/dev/null
+git add -u fixes KNOWN_FINDINGS.txt MANIFEST.json harness/*.py 2>/dev/null
 exit 0
